@@ -1,23 +1,16 @@
-"""Per-property configuration of ./check: Lean Spec modules, correspondence streams, trusted base."""
+"""Per-property configuration of ./check, loaded from /verif/props/<ID>.json (one file per property):
+  spec: Lean modules holding the property theorems; gen: Gen modules they mention (regenerated every run);
+  pinned: Gen modules that must equal golden/<name>.lean; streams: correspondence streams (harness binary
+  cmd/<id> + lean exe drv_<ID>); manifest: {level, note, technique}; trusted, assumptions, timeout, thorough_seeds."""
+import json, os, glob
 
+_ROOT = os.path.dirname(os.path.dirname(os.path.abspath(__file__)))
 COMMON_TRUSTED = [
-    "translator: /verif/harness/cmd/factgen (Go; regenerates lean/Gen/*.lean from /repo on every run)",
-    "correspondence check: /verif/harness (Go, real code in-process) vs lean driver, line protocol + diff",
+    "translator: /verif/harness facts sub-command (Go; regenerates lean/Gen/*.lean from /repo on every run)",
+    "correspondence check: /verif/harness (Go, real code in-process) vs compiled Lean driver, line protocol + diff",
 ]
-
-PROPS = {
-    "C12": {
-        "spec": ["Spec.C12"],
-        "gen": ["C12"],
-        "pinned": ["C12"],
-        "streams": ["C12"],
-        "thorough_seeds": 4,
-        "trusted": COMMON_TRUSTED + [
-            "modelled, not verified: protobuf-go (wire codec), encoding/gob, libp2p public-key (un)marshalling (parameter keyOk), crypto/sha256 (Lean SHA-256 model tied by golden vectors and the stream)",
-        ],
-        "assumptions": [
-            "values are within the Go types' ranges (uint64 fields < 2^64, field numbers < 2^29)",
-            "protobuf-go writes known fields in field-number order (observed behaviour, checked by the stream on every run)",
-        ],
-    },
-}
+PROPS = {}
+for _f in sorted(glob.glob(os.path.join(_ROOT, "props", "C*.json"))):
+    _p = json.load(open(_f))
+    _p["trusted"] = COMMON_TRUSTED + _p.get("trusted", [])
+    PROPS[_p["id"]] = _p
